@@ -151,6 +151,8 @@ class Reporter {
     ++held_;
     if (nontrivial) {
       ++nontrivial_;
+      // safety net for the evidence: remember one actual case of this window
+      if (fallback_sample_.empty() && shm_->note[0]) fallback_sample_ = std::string("{\"case\":\"") + JsonEscape(shm_->note) + "\",\"k\":" + std::to_string(case_) + "}";
       if (seen_.insert(sig).second) sigs_.push_back(sig);
     }
   }
@@ -210,6 +212,8 @@ class Reporter {
       s += "\"" + JsonEscape(kv.first) + "\":" + b;
     }
     s += "},\"samples\":[";
+    if (samples_.empty() && !fallback_sample_.empty()) samples_.push_back(fallback_sample_);
+    fallback_sample_.clear();
     for (size_t i = 0; i < samples_.size(); ++i) {
       if (i) s += ",";
       s += samples_[i];
@@ -288,6 +292,7 @@ class Reporter {
   std::map<std::string, double> maxes_;
   std::map<std::string, int> replays_;
   std::vector<std::string> samples_;
+  std::string fallback_sample_;
   std::vector<uint64_t> sigs_;
   std::unordered_set<uint64_t> seen_;
 };
